@@ -297,7 +297,8 @@ def run(ctx):
     if not r0["mismatches"] and r0["steps"] < steps_total:
         raise MachineryError("replay executed %d steps for %d walk steps" % (r0["steps"], steps_total))
     for k in ("server_requests", "server_accepts", "altered_requests", "reencoded_requests", "client_deliveries", "secret_matrix_requests",
-              "time_matrix_requests", "host_matrix_requests", "client_host_matrix_cases"):
+              "time_matrix_requests", "host_matrix_requests", "client_host_matrix_cases", "default_secret_cases",
+              "mixed_state_requests", "cross_field_requests"):
         if not extra.get(k):
             raise MachineryError("vacuous replay: counter %s is zero" % k)
     cov = evidence.mc_coverage(
